@@ -540,6 +540,7 @@ func (c c04Call) coq() string {
 }
 
 type c04Step struct {
+	Orig   [][2]string
 	Env    c04Env
 	Before c04State
 	Call   c04Call
@@ -557,7 +558,11 @@ type c04Case struct {
 
 func (t c04Step) coq() string {
 	r := map[string]string{"ok": "ROk", "err": "RErr", "panic": "RPanic", "zero": "RZero"}[t.Res]
-	return cApp("mkStep", t.Env.coq(), t.Before.coq(), t.Call.coq(), t.After.coq(), r, cZ(int64(len(t.Other))))
+	var og []string
+	for _, o := range t.Orig {
+		og = append(og, cTuple(cZstr(o[0]), cZstr(o[1])))
+	}
+	return cApp("mkStep", t.Env.coq(), t.Before.coq(), t.Call.coq(), t.After.coq(), r, cZ(int64(len(t.Other))), cList(og))
 }
 
 // ---- environment observation --------------------------------------------------------------------------
@@ -590,10 +595,82 @@ func (w *c04World) observeEnv(ctx sdk.Context, ids *c04IDs, avss []string) c04En
 // ---- generation ---------------------------------------------------------------------------------------
 
 type c04Gen struct {
-	w     *c04World
-	rng   *rand.Rand
-	cw    *CaseWriter
-	nonce uint64
+	w       *c04World
+	rng     *rand.Rand
+	cw      *CaseWriter
+	nonce   uint64
+	orig    map[int]string // ghost: Amount of each undelegation record when it was first observed (right after its creation)
+	origIDs *c04IDs
+}
+
+// snapshotOrig remembers the Amount of every record not seen before (called right after records are created, before anything
+// else can touch them).
+func (g *c04Gen) snapshotOrig(ctx sdk.Context, ids *c04IDs) {
+	if g.origIDs != ids {
+		g.orig, g.origIDs = map[int]string{}, ids
+	}
+	for _, r := range g.w.dump(ctx, ids).Recs {
+		if _, ok := g.orig[r.ID]; !ok {
+			g.orig[r.ID] = r.Amount
+		}
+	}
+}
+
+func (g *c04Gen) origList() [][2]string {
+	keys := make([]int, 0, len(g.orig))
+	for k := range g.orig {
+		keys = append(keys, k)
+	}
+	sort.Ints(keys)
+	var out [][2]string
+	for _, k := range keys {
+		out = append(out, [2]string{fmt.Sprint(k), g.orig[k]})
+	}
+	return out
+}
+
+// nstDecrease: a client-chain balance decrease (DelegationKeeper.UpdateNSTBalance with a negative amount) for a staker that has
+// pending undelegations from the target operator, large enough to use up the withdrawable balance and eat into the pending
+// undelegations (their ActualCompletedAmount shrinks; the Amount they were created with must not).
+func (g *c04Gen) nstDecrease(ctx sdk.Context, ids *c04IDs, target int) {
+	app := g.w.Env.App
+	recs, _ := app.DelegationKeeper.AllUndelegations(ctx)
+	var cand []delegationtypes.UndelegationRecord
+	for _, r := range recs {
+		if r.OperatorAddr == g.w.Env.Operators[target].String() && r.ActualCompletedAmount.IsPositive() {
+			cand = append(cand, r)
+		}
+	}
+	if len(cand) == 0 {
+		return
+	}
+	r := cand[g.rng.Intn(len(cand))]
+	info, err := app.AssetsKeeper.GetStakerSpecifiedAssetInfo(ctx, r.StakerID, r.AssetID)
+	if err != nil {
+		return
+	}
+	var eat sdkmath.Int
+	switch g.rng.Intn(3) {
+	case 0:
+		eat = sdkmath.NewInt(1)
+	case 1:
+		eat = r.ActualCompletedAmount
+	default:
+		eat = r.ActualCompletedAmount.QuoRaw(2).AddRaw(1)
+	}
+	amt := info.WithdrawableAmount.Add(eat).Neg()
+	func() {
+		defer func() {
+			if x := recover(); x != nil {
+				g.cw.Count("nst-decrease.panic")
+			}
+		}()
+		if err := app.DelegationKeeper.UpdateNSTBalance(ctx, r.StakerID, r.AssetID, amt); err != nil {
+			g.cw.Count("nst-decrease.err")
+		} else {
+			g.cw.Count("nst-decrease.ok")
+		}
+	}()
 }
 
 func pow10(n int) *big.Int { return new(big.Int).Exp(big.NewInt(10), big.NewInt(int64(n)), nil) }
@@ -851,6 +928,7 @@ func (g *c04Gen) pickFactor() sdkmath.LegacyDec {
 
 // exec runs one call and records the step.
 func (g *c04Gen) exec(ctx sdk.Context, ids *c04IDs, call c04Call, avss []string, run func() string) c04Step {
+	g.snapshotOrig(ctx, ids)
 	env := g.w.observeEnv(ctx, ids, avss)
 	before := g.w.dump(ctx, ids)
 	ob := g.w.otherKV(ctx, c04TypedPrefixes)
@@ -866,7 +944,7 @@ func (g *c04Gen) exec(ctx sdk.Context, ids *c04IDs, call c04Call, avss []string,
 	oa := g.w.otherKV(ctx, c04TypedPrefixes)
 	g.cw.Count("res=" + call.Kind + "/" + res)
 	g.observeStats(env, before, after, call)
-	return c04Step{Env: env, Before: before, Call: call, After: after, Res: res, Other: kvDiff(ob, oa)}
+	return c04Step{Env: env, Before: before, Call: call, After: after, Res: res, Other: kvDiff(ob, oa), Orig: g.origList()}
 }
 
 // observeStats counts what the executed call exercised (goes into the evidence as the input distribution).
@@ -1143,6 +1221,24 @@ func runC04(a *Args) error {
 		cw.Count("directed.slash-maturity-slash")
 	}
 
+	// (5) pending undelegation -> client-chain balance decrease that eats into it -> operator slash for an earlier infraction: the
+	// cut must still be measured on the amount the undelegation was created with
+	for _, target := range []int{3, 0} {
+		ctx, _ := base.CacheContext()
+		ids := &c04IDs{m: map[string]int{}}
+		ctx = ctx.WithBlockHeight(2)
+		g.buildLedger(ctx, target, []int64{12, 12, 13})
+		g.snapshotOrig(ctx, ids)
+		ctx = ctx.WithBlockHeight(14)
+		for k := 0; k < 3; k++ {
+			g.nstDecrease(ctx, ids, target)
+		}
+		ctx = ctx.WithBlockHeight(15)
+		s1 := g.doCall(ctx, ids, target, 10, g.pickPower(ctx, target), sdkmath.LegacyNewDecWithPrec(5, 1), 1, "", stakingtypes.Infraction_INFRACTION_DOUBLE_SIGN)
+		emit([]c04Step{s1}, []string{"directed-balance-decrease-then-slash"})
+		cw.Count("directed.balance-decrease-then-slash")
+	}
+
 	// ---- random cases ----
 	for cw.n < a.N {
 		ctx, _ := base.CacheContext()
@@ -1183,7 +1279,11 @@ func runC04(a *Args) error {
 		ctx = ctx.WithBlockHeight(2)
 		g.randomPrices(ctx)
 		g.buildLedger(ctx, target, uhs)
+		g.snapshotOrig(ctx, ids)
 		ctx = ctx.WithBlockHeight(H)
+		if rng.Intn(3) == 0 {
+			g.nstDecrease(ctx, ids, target)
+		}
 
 		nSteps := 1 + rng.Intn(3)
 		var steps []c04Step
@@ -1245,6 +1345,10 @@ func runC04(a *Args) error {
 			// between steps: sometimes let the pending undelegations mature (real delegation EndBlock), move on, change prices
 			if rng.Intn(3) == 0 {
 				ctx = g.mature(ctx, ctx.BlockHeight()+11)
+			}
+			if rng.Intn(5) == 0 {
+				g.snapshotOrig(ctx, ids)
+				g.nstDecrease(ctx, ids, target)
 			}
 			if rng.Intn(2) == 0 {
 				ctx = ctx.WithBlockHeight(ctx.BlockHeight() + int64(rng.Intn(3)))
